@@ -198,7 +198,7 @@ package solver
 // insert (trusted: the heap order is not specified): n is in the queue afterwards, whatever was in stays in
 //@ func (*queue).insert
 //@   trusted
-//@   requires nn: q != nil && n >= 0
+//@   requires nn: n >= 0
 //@   modifies q.content, q.indices, q.content[*], q.indices[*]
 //@   ensures  in:   n < len(q.indices) && q.indices[n] >= 0 && len(q.indices) >= old(len(q.indices))
 //@   ensures  kept: forall(k, 0, old(len(q.indices)), old(q.indices[k]) >= 0 ==> q.indices[k] >= 0)
@@ -940,3 +940,17 @@ package solver
 //@     invariant own: s.bufLits != nil && (arr(lits) == arr(s.bufLits) || fresh(lits))
 //@   loop 4
 //@     invariant own: s.bufLits != nil && (arr(lits) == arr(s.bufLits) || fresh(lits))
+
+// ---------------------------------------------------------------- parse-time simplification of cardinality constraints (C02)
+
+// simplifyCard: the counter nbSat of the scan is the number of literals among those already
+// scanned that are true at the top level, so a constraint is only dropped as satisfied when
+// `card` distinct literals of it are true (after-loop assertion sat). Unit propagation between
+// constraints, addUnits and the restart loop are not specified here.
+//@ func (*Problem).simplifyCard
+//@   inline-calls (Lit).Var, (Lit).IsPositive, (Lit).Negation
+//@   requires nn: pb != nil
+//@   modifies pb.Status, pb.Clauses, pb.Clauses[*], pb.Units, pb.Units[*], pb.Model[*], all Clause.lits, all []Lit, all Clause.lbdValue
+//@   loop 3
+//@     invariant cnt:  nbSat == tcount(c.lits, pb.Model, j) && 0 <= j && nbSat >= 0
+//@   assert after-loop 3 sat: clauseSat ==> tcount(c.lits, pb.Model, j + 1) == card
